@@ -379,12 +379,12 @@ def sub_fills(ctx, shard, n):
         L = Fr(m[0], m[1])
         for v in RV.VOCAB:
             k = L / RV.vlen(v)
-            if k.denominator == 1 and 1 <= k <= (100 if ctx.quick else 1000):
+            if k.denominator == 1 and 1 <= k <= (100 if ctx.quick else 300):
                 ops = [["add_bar", "g", m]] + [["add", "str", [["C", 4]], v]] * int(k) + \
                       [["add", "note", [["E", 4]], v], ["rest", v], ["plus", "str", [["G", 4]]]]
                 cases.append({"instr": "none", "ops": ops})
     if shard == 0:
-        ctx.exhaustive("track: single-value fills to exact capacity, then three more items", "16 meters x 80 values, k <= %d" % (100 if ctx.quick else 1000), len(cases))
+        ctx.exhaustive("track: single-value fills to exact capacity, then three more items", "16 meters x 80 values, k <= %d" % (100 if ctx.quick else 300), len(cases))
     ctx.enumerate("history", check_history, cases[shard::n], size_key=lambda c: len(c["ops"]))
 
 
